@@ -9,11 +9,15 @@ use serde_json::{json, Value as J};
 use crate::util::{fnv64, Budget, Report, Tier, Violation};
 use crate::world::{ops_short, run_world, Op, OptSet, WorldFailure};
 
+pub mod c01;
 pub mod c06;
+pub mod c07;
 
 pub fn check(prop: &str, tier: Tier) -> i32 {
 	match prop {
+		"C01" => c01::check(tier),
 		"C06" => c06::check(tier),
+		"C07" => c07::check(tier),
 		_ => {
 			eprintln!("machinery: unknown property {prop}");
 			2
